@@ -144,12 +144,27 @@ def enum_strings(tier):
         yield "ipv6", "1:2:3:4:5:" + a + ":" + b + ":" + c
 
 
+# Which built-in formats each checker object of THIS installation registers (no optional library except idna is
+# installed).  The names are the ones the drafts' specifications give the formats (Draft 3: ip-address / date /
+# time / regex / email; Draft 4 and 6: ipv4 / ipv6 / email / regex; Draft 7 adds date and idn-hostname).
+# A checker object that silently loses one of them stops checking that format for its draft.
+EXPECTED_REGISTRATION = {
+    "FormatChecker()": ["date", "email", "idn-email", "idn-hostname", "ipv4", "ipv6", "regex", "time"],
+    "draft3": ["date", "email", "idn-email", "ip-address", "ipv6", "regex", "time"],
+    "draft4": ["email", "idn-email", "ipv4", "ipv6", "regex"],
+    "draft6": ["email", "idn-email", "ipv4", "ipv6", "regex"],
+    "draft7": ["date", "email", "idn-email", "idn-hostname", "ipv4", "ipv6", "regex"],
+}
+
+
 def judge(res, fmt, s, checkers=None):
     """Check one (format, string) against every checker object that knows the format."""
     objs = checkers or CHECKERS()
     verdicts = set()
     for cname, chk in objs:
         if fmt not in chk.checkers:
+            if fmt in EXPECTED_REGISTRATION.get(cname, ()):
+                res.fail(("format-not-registered", cname, fmt), "%s no longer knows the format %r" % (cname, fmt))
             continue
         res.evals += 1
         try:
